@@ -37,7 +37,7 @@ META = dict(
                         "length 3, every first-access kind in front of every base path, x all rows/columns/nodes; and "
                         "EVERY element, isotope and one ion of each as the first access of a fresh process (own record "
                         "judged, no sweep)"),
-    assumptions=["the embedded table text is the source of truth", "column meaning is taken from the comment block "
+    assumptions=["the embedded table is the data the tree under test carries: its text, read by the independent reader, is the reference; where that text is unreadable (changed layout) the pinned copy mc/ref/pinned_tables.json of the unchanged tree is (mc/ref/tables.py reference())", "column meaning is taken from the comment block "
                  "above nsftable in nsf.py", "energy -> wavelength conversion of the library is used to address "
                  "the table nodes (its correctness is C04)",
                  "the statement names elements and isotopes: what an ion serves is judged only for history independence "
